@@ -137,6 +137,8 @@ fn main() {
         }
         "digest-batch" => {
             let p = |i: usize| args.get(i).and_then(|s| s.parse::<u64>().ok()).unwrap_or(0);
+            // optional 4th argument: the prelude this process executes before the batch
+            threads::prelude(p(4));
             print!("{}", threads::digest_batch(p(2), p(3)));
             0
         }
@@ -370,7 +372,7 @@ fn check_c07(tier: Tier, seed: u64) -> i32 {
     let (mut stats, found, schedules) = c07_sweep(seed, sims, cap, t0);
     // proc dimension: the same batch in fresh processes (new ASLR, new std hash keys)
     let nproc = 8;
-    let batch = match tier { Tier::Quick => 400u64, Tier::Thorough => 20_000 };
+    let batch = match tier { Tier::Quick => 4_000u64, Tier::Thorough => 40_000 };
     let exe = std::env::current_exe().unwrap();
     // every child also gets a different process environment (locale, time zone, HOME, working
     // directory, terminal size, RUST_* and RAYON_* variables): none of it may reach the output
@@ -379,7 +381,10 @@ fn check_c07(tier: Tier, seed: u64) -> i32 {
     let children: Vec<_> = (0..nproc)
         .map(|k| {
             let mut c = std::process::Command::new(&exe);
-            c.args(["digest-batch", &seed.to_string(), &batch.to_string()]).stdout(std::process::Stdio::piped()).stderr(std::process::Stdio::null());
+            // every child also has a different history before the batch (nothing a process did
+            // earlier - which configuration it served first, how large, in which mode - may reach
+            // the bytes of a later generation)
+            c.args(["digest-batch", &seed.to_string(), &batch.to_string(), &(k % 5).to_string()]).stdout(std::process::Stdio::piped()).stderr(std::process::Stdio::null());
             match k % 4 {
                 1 => {
                     c.env("LANG", "C").env("LC_ALL", "C").env("TZ", "Pacific/Kiritimati").env("COLUMNS", "20").env("RUST_BACKTRACE", "full").current_dir("/");
@@ -1235,11 +1240,11 @@ fn run_replay(path: &str) -> i32 {
             let seed: u64 = doc["scenario"]["seed"].as_str().and_then(|s| s.parse().ok()).unwrap_or(0);
             let batch = doc["scenario"]["batch"].as_u64().unwrap_or(100);
             let exe = std::env::current_exe().unwrap();
-            let run = || std::process::Command::new(&exe).args(["digest-batch", &seed.to_string(), &batch.to_string()]).output().map(|o| o.stdout).unwrap_or_default();
-            let a = run();
+            let run = |prelude: u64| std::process::Command::new(&exe).args(["digest-batch", &seed.to_string(), &batch.to_string(), &prelude.to_string()]).output().map(|o| o.stdout).unwrap_or_default();
+            let a = run(0);
             let mut differs = false;
-            for _ in 0..7 {
-                if run() != a {
+            for k in 1..8u64 {
+                if run(k % 5) != a {
                     differs = true;
                 }
             }
